@@ -2,9 +2,22 @@
 C06 — A spectator replays exactly the host's confirmed input sequence (spectator side).
 
 `inputsAtFrame` / `advanceFrame` model `SpectatorSession::inputs_at_frame` / `advance_frame`.
+
+`C06_replay` (Proofs/SpecRing.lean) is the all-histories statement for the spectator's side: for
+every interleaving of arriving frames (each one the players' Input events of the next frame of the
+host's sequence `Hs` — that they arrive complete, once and in order is `C05_stream_intact`) and
+`advance_frame` calls, the 60-slot ring holds the newest frames of `Hs`, and every call either
+fails with nothing consumed — NotSynchronized; PredictionThreshold exactly when the next frame
+has not arrived; SpectatorTooFarBehind exactly when the host has overwritten it — or hands out
+the next `k` frames of `Hs` in order without gap or repeat, never beyond what has arrived, with
+`k = 1`, or `min(catchup_speed, frames behind, 59)` while more than `max_frames_behind` frames
+are buffered. Not covered by the theorem (decided on traces): the Disconnected statuses against
+the host's view (the status clause is `C06_values_and_status`), the host's side
+(`send_confirmed_inputs_to_spectators`), non-interference of attached spectators.
 -/
 import GgrsModel.Model.Spectator
 import GgrsModel.Proofs.Monad
+import GgrsModel.Proofs.SpecRing
 
 namespace Ggrs.Spectator
 
@@ -60,5 +73,26 @@ theorem C06_values_and_status (s : Spectator) (f : Frame)
   have h2 : ¬ (rget (rget s.inputs (frameIdx f SPECTATOR_BUFFER_SIZE)) 0).frame > f := by
     rw [hslot]; exact Int.lt_irrefl _
   simp only [h1, h2, if_false]
+
+end Ggrs.Spectator
+
+namespace Ggrs.Spectator
+
+/-- **C06, replay (spectator side, all histories).** -/
+theorem C06_replay (numPlayers : Nat) (host : Endpoint) (mfb cs : Nat) (hn : numPlayers > 0)
+    (y : Spectator × List (List Input) × Nat)
+    (hrun : SpStar (Spectator.new numPlayers host mfb cs, [], 0) y)
+    (s' : Spectator) (res : Except GgrsError (List Request)) (hadv : y.1.advanceAfterPoll = .ok (s', res)) :
+    SpecInv y.1 y.2.1 y.2.2 ∧
+    (∀ reqs, res = .ok reqs → AdvOk y.2.1 y.2.2 reqs ∧ SpecInv s' y.2.1 (y.2.2 + reqs.length) ∧
+      reqs.length = (if y.2.1.length - y.2.2 > y.1.maxFramesBehind
+        then min (min y.1.catchupSpeed (y.2.1.length - y.2.2)) (SPECTATOR_BUFFER_SIZE - 1) else NORMAL_SPEED)) ∧
+    (∀ e, res = .error e → SpecInv s' y.2.1 y.2.2 ∧
+      (e = .notSynchronized ∨ (e = .predictionThreshold ∧ y.2.1.length ≤ y.2.2) ∨
+       (e = .spectatorTooFarBehind ∧ y.2.2 + SPECTATOR_BUFFER_SIZE < y.2.1.length))) := by
+  have h0 : SpecInv (Spectator.new numPlayers host mfb cs) [] 0 :=
+    ⟨specRing_new numPlayers host mfb cs hn, rfl, Nat.le_refl _⟩
+  have h := SpecInv_run _ y h0 hrun
+  exact ⟨h, advanceAfterPoll_spec y.1 s' y.2.1 y.2.2 res h hadv⟩
 
 end Ggrs.Spectator
